@@ -183,16 +183,28 @@ def ldap_response_variants(rng):
     ldap, _, _, _, _ = _mods()
     code = rng.choice(list(ldap.LDAPResultCode))
     wire = ref.ldap_start_tls_response(int(code), rng.choice([0, 1, 2, 127, 128, 65535, 2 ** 31 - 1]),
-                                       rng.choice([b'', b'dc=example,dc=com']), rng.choice([b'', b'TLS already started']),
-                                       rng.choice([None, b'1.3.6.1.4.1.1466.20037']))
+                                       rng.choice([b'', b'dc=example,dc=com']),
+                                       rng.choice([b'', b'TLS already started', b'x' * 127, rbytes(rng, 200).hex().encode('ascii'),
+                                                   b'd' * rng.choice([110, 120, 128, 255, 256, 70000])]),
+                                       rng.choice([None, b'1.3.6.1.4.1.1466.20037']),
+                                       rng.choice([None, None, 1, 2, 4]), rng.choice([None, None, 1, 3, 4]))
     return Pair('ldap-start-tls-response-variant', ldap.LDAPExtendedResponseStartTLS(code), wire, {'wire_type': 'response'},
+                compose_must_match=False)
+
+
+def ldap_request_variants(rng):
+    """Parse direction: other message ids and non-minimal definite lengths (what Active Directory sends)."""
+    ldap, _, _, _, _ = _mods()
+    wire = ref.ldap_start_tls_request(rng.choice([0, 1, 2, 127, 128, 255, 256, 65535, 2 ** 31 - 1]),
+                                      rng.choice([None, 1, 2, 4]), rng.choice([None, 1, 4]))
+    return Pair('ldap-start-tls-request-variant', ldap.LDAPExtendedRequestStartTLS(), wire, {'wire_type': 'request'},
                 compose_must_match=False)
 
 
 def generate(rng, count):
     makers = [mysql_handshake, lambda r: mysql_handshake(r, True), mysql_ssl_request, mysql_record, tpkt,
               lambda r: x224(r, True), lambda r: x224(r, False), rdp_negotiation, openvpn, openvpn, openvpn_tcp,
-              postgresql, ldap_request, ldap_response, ldap_response_variants]
+              postgresql, ldap_request, ldap_response, ldap_response_variants, ldap_response_variants, ldap_request_variants]
     produced = 0
     while produced < count:
         for maker in makers:
